@@ -493,6 +493,28 @@ def gen_specials(table=None):
 # ---------------------------------------------------------------------------------------------------
 #  one shard (runs in a worker process)
 # ---------------------------------------------------------------------------------------------------
+def safe_run_shard(binary, cases, **kw):
+    """core.run_shard, but a batch whose FIRST case never finishes (core raises 'driver made no progress') costs that case only"""
+    out = {}
+    cases = list(cases)
+    while cases:
+        try:
+            out.update(core.run_shard(binary, cases, **kw))
+            break
+        except RuntimeError as e:
+            if 'no progress' not in str(e):
+                raise
+            r = core.Record(cases[0].id)
+            r.hang = True
+            if 'rc=-9' not in str(e) and 'rc=None' not in str(e):
+                reps = core.parse_san(str(e))
+                r.hang = False
+                r.crash = reps[0] if reps else core.SanReport('signal', 'start', [], str(e)[-2000:])
+            out[cases[0].id] = r
+            cases = cases[1:]
+    return out
+
+
 def _detailed(c, dump=-1):
     c2 = core.Case(c.id + '_d', CMD, dict(c.opt, chk=1, dump=dump), meta=c.meta)
     c2.steps = list(c.steps)
@@ -503,7 +525,7 @@ def attach_observed_dump(binary, witness):
     """re-execute the witness case with a full dump after every operation and attach what the real library showed"""
     c = core.Case.from_json(witness['case'])
     c2 = _detailed(c, dump=1)
-    r = core.run_shard(binary, [c2], tag='c13w', env=_env_for(binary)).get(c2.id)
+    r = safe_run_shard(binary, [c2], tag='c13w', env=_env_for(binary)).get(c2.id)
     if r is None or not r.complete or r.crash:
         return
     dobs, _ = parse_obs(r.lines)
@@ -534,7 +556,7 @@ def run_shard(args):
     recs = {}
     CH = 300 if kind != 'special' else 4      # special cases in small batches (some of them used to crash or loop)
     for b in range(0, len(cases), CH):
-        recs.update(core.run_shard(binary, cases[b:b + CH], tag='c13%s%d' % (kind[0], shard), per_case_timeout=10.0, min_batch_timeout=90.0, env=_env_for(binary)))
+        recs.update(safe_run_shard(binary, cases[b:b + CH], tag='c13%s%d' % (kind[0], shard), per_case_timeout=10.0, min_batch_timeout=90.0, env=_env_for(binary)))
     trun = time.time() - t0 - tgen
     suspects = []
 
@@ -546,7 +568,7 @@ def run_shard(args):
         r = recs.get(c.id)
         if r is not None and r.hang and not r.crash:
             # the batch watchdog fired (possible on an overloaded machine): the case is re-run alone; only a second trip is a hang
-            r = core.run_shard(binary, [c], tag='c13h%d' % shard, per_case_timeout=40.0, min_batch_timeout=150.0, env=_env_for(binary)).get(c.id)
+            r = safe_run_shard(binary, [c], tag='c13h%d' % shard, per_case_timeout=40.0, min_batch_timeout=150.0, env=_env_for(binary)).get(c.id)
         if r is None or not r.complete or r.crash or r.hang:
             crash_entry(c, r)
             continue
@@ -584,14 +606,14 @@ def run_shard(args):
         need = [x for x in suspects if int(x[0].opt.get('chk', 1)) != 1]
         recs2 = {}
         for b in range(0, len(need), 40):
-            recs2.update(core.run_shard(binary, [_detailed(c) for c, _ in need[b:b + 40]], tag='c13v%d' % shard, per_case_timeout=20.0,
+            recs2.update(safe_run_shard(binary, [_detailed(c) for c, _ in need[b:b + 40]], tag='c13v%d' % shard, per_case_timeout=20.0,
                                         min_batch_timeout=240.0, env=_env_for(binary)))
         for c, viol in suspects:
             r2 = recs2.get(c.id + '_d')
             if int(c.opt.get('chk', 1)) != 1 and (r2 is None or not r2.complete or r2.hang):
                 # batch was cut short (watchdog on an overloaded machine): again, alone, up to three times
                 for _try in range(3):
-                    r2 = core.run_shard(binary, [_detailed(c)], tag='c13w%d' % shard, per_case_timeout=40.0, min_batch_timeout=300.0, env=_env_for(binary)).get(c.id + '_d')
+                    r2 = safe_run_shard(binary, [_detailed(c)], tag='c13w%d' % shard, per_case_timeout=40.0, min_batch_timeout=300.0, env=_env_for(binary)).get(c.id + '_d')
                     if r2 is not None and (r2.complete or r2.crash):
                         break
             if r2 is not None and r2.complete and not r2.crash and not r2.hang:
@@ -689,6 +711,7 @@ def shrink(binary, case_json, key, max_rounds=14, pid=PID, base=frozenset()):
 # ---------------------------------------------------------------------------------------------------
 TIERS = {
     #            random scripts, ops each, exhaustive depth
+    'micro': dict(nrandom=96, nops=200, depth=0, chk=4),         # first 6 scripts of each shard
     'mini': dict(nrandom=320, nops=200, depth=0, chk=4),        # subset of quick (same shards, first 20 scripts each): sensitivity runs
     'quick': dict(nrandom=2000, nops=200, depth=2, chk=4),
     'thorough': dict(nrandom=8000, nops=1000, depth=3, chk=10),
